@@ -32,7 +32,7 @@ BlockClause(c) ==
     ELSE "ok"
 Give(c) == LET cl == BlockClause(c)
                dem == BlockDemanded([block |-> c.block, h |-> c.h, w |-> c.w, maxH |-> c.maxH, maxW |-> c.maxW])
-           IN IF dem THEN VGive(c.id, cl) /\ Note(IF cl = "ok" THEN "block_agrees_" \o c.block ELSE "block_rejected")
+           IN IF dem THEN VGive(c.id, cl) /\ Note("block_judged_" \o c.block) /\ Note(IF cl = "ok" THEN "block_agrees_" \o c.block ELSE "block_rejected")
               ELSE VAccept /\ Note("silent_" \o c.block \o "_" \o (IF cl = "ok" THEN "agrees" ELSE "differs"))
 Check == i >= 1 => Give(Cases[i])
 Report == /\ TLCSet(1, TLCGet(1) \cup {<<0 - TLCGet(5)[c], "note:" \o c>> : c \in DOMAIN TLCGet(5)})
